@@ -11,6 +11,7 @@ import SkNet.Model.Cycles
 import SkNet.Spec.Connectivity
 import SkNet.Lemmas.Connectivity
 import SkNet.Lemmas.BreakCycles
+import SkNet.Lemmas.Bipartite
 
 namespace SkNet.C12
 open SkNet SkNet.Connectivity SkNet.Cycles
@@ -194,6 +195,101 @@ theorem largest_component_induced_bipartite (cc : CC) (m : Mat) (strong fb : Boo
   · rw [hmat]; exact subMatrix_length _ _ _
   · intro a b ha hb'
     rw [hmat]; exact subMatrix_getD m _ _ a b ha hb'
+
+/-! ## is_bipartite -/
+
+/-- ★ `isBipartite_iff`: on a symmetric matrix (stored entries = non-zero entries) `is_bipartite` never raises and
+    never runs out of fuel; it answers `False` only when the graph has a self-loop or no proper 2-colouring, and
+    `True` only for a loop-free graph with a proper 2-colouring (a conflict met by the search contradicts every
+    proper colouring: `Lemmas/Bipartite.lean`, invariant `Base.ext`).
+    ★ `biadjacency_reassembles`: with `True` come `rows` / `cols` (increasing) that split the nodes into two
+    classes without inner entry, and the biadjacency is the input restricted to `rows × cols`: together with
+    the symmetry, every entry of the graph is an entry of the biadjacency or of its transpose. -/
+theorem isBipartite_iff (m : Mat) (hc : m.Canon) (hs : m.isSymmetric = .ok true) :
+    match isBipartite m with
+    | .fuel => False
+    | .raised _ => False
+    | .no => ¬ ((∀ u, u < m.nRow → u ∉ m.adj u) ∧ TwoColourable m.nRow m.adj)
+    | .yes b rows cols =>
+        (∀ u, u < m.nRow → u ∉ m.adj u) ∧ TwoColourable m.nRow m.adj ∧
+        rows.Pairwise (· < ·) ∧ cols.Pairwise (· < ·) ∧
+        (∀ v, v < m.nRow → (v ∈ rows ∨ v ∈ cols)) ∧ (∀ v, v ∈ rows → v ∉ cols) ∧
+        (∀ v, v ∈ rows ∨ v ∈ cols → v < m.nRow) ∧
+        (∀ i ∈ rows, ∀ j ∈ rows, m.val i j = 0) ∧ (∀ i ∈ cols, ∀ j ∈ cols, m.val i j = 0) ∧
+        b = subMatrix m rows cols ∧
+        ∀ x y, x < rows.length → y < cols.length →
+          (b.getD x []).getD y 0 = m.val (rows.getD x 0) (cols.getD y 0) := by
+  obtain ⟨hsq, hval⟩ := isSymmetric_true hs
+  have hwf := Canon.wf hc hsq
+  have hsym := Canon.sym hc hs
+  unfold isBipartite
+  simp only [hs]
+  by_cases hd : ((List.range m.nRow).any fun i => m.val i i != 0) = true
+  · simp only [hd, ↓reduceIte]
+    intro ⟨hnl, _⟩
+    obtain ⟨i, hi, hne⟩ := List.any_eq_true.mp hd
+    have hi' := List.mem_range.mp hi
+    exact hnl i hi' ((hc i i hi').mpr ⟨hsq ▸ hi', by simpa using hne⟩)
+  · simp only [hd, Bool.false_eq_true, ↓reduceIte]
+    have hnl : ∀ u, u < m.nRow → u ∉ m.adj u := by
+      intro u hu hmem
+      apply hd
+      exact List.any_eq_true.mpr ⟨u, List.mem_range.mpr hu, by simpa using ((hc u u hu).mp hmem).2⟩
+    have hcs := colourSearch_spec hwf hsym
+    cases hres : colourSearch m.nRow m.adj with
+    | fuel => simp only [hres] at hcs
+    | raised e => simp only [hres] at hcs
+    | no =>
+      simp only [hres] at hcs ⊢
+      exact fun h => hcs h.2
+    | yes c =>
+      simp only [hres] at hcs ⊢
+      obtain ⟨hlen, h01, hp⟩ := hcs
+      have hmemr : ∀ v k, v ∈ ((List.range c.length).filter fun i => c.getD i (-1) == k) ↔ v < m.nRow ∧ colOf c v = k := by
+        intro v k
+        rw [List.mem_filter, List.mem_range, hlen]
+        simp [colOf]
+      have hzero : ∀ (k : Int) i j, i < m.nRow → j < m.nRow → colOf c i = k → colOf c j = k → m.val i j = 0 := by
+        intro k i j hi hj hci hcj
+        apply Classical.byContradiction
+        intro hne
+        have hmem : j ∈ m.adj i := (hc i j hi).mpr ⟨hsq ▸ hj, hne⟩
+        exact hp i hi j hmem (hcj.trans hci.symm)
+      refine ⟨hnl, twoColourable_of_colouring hwf h01 hp, List.Pairwise.filter _ List.pairwise_lt_range,
+        List.Pairwise.filter _ List.pairwise_lt_range, ?_, ?_, ?_, ?_, ?_, trivial, ?_⟩
+      · intro v hv
+        rcases h01 v hv with h | h
+        · left; exact (hmemr v 0).mpr ⟨hv, h⟩
+        · right; exact (hmemr v 1).mpr ⟨hv, h⟩
+      · intro v hv1 hv2
+        have h1 := ((hmemr v 0).mp hv1).2
+        have h2 := ((hmemr v 1).mp hv2).2
+        rw [h1] at h2; exact absurd h2 (by decide)
+      · intro v hv
+        rcases hv with hv | hv
+        · exact ((hmemr v 0).mp hv).1
+        · exact ((hmemr v 1).mp hv).1
+      · intro i hi j hj
+        obtain ⟨hi1, hi2⟩ := (hmemr i 0).mp hi
+        obtain ⟨hj1, hj2⟩ := (hmemr j 0).mp hj
+        exact hzero 0 i j hi1 hj1 hi2 hj2
+      · intro i hi j hj
+        obtain ⟨hi1, hi2⟩ := (hmemr i 1).mp hi
+        obtain ⟨hj1, hj2⟩ := (hmemr j 1).mp hj
+        exact hzero 1 i j hi1 hj1 hi2 hj2
+      · intro x y hx hy
+        exact subMatrix_getD m _ _ x y hx hy
+
+/-- the square 0-1-2-3: symmetric, stored = non-zero, answered `True` with rows {0,2}, cols {1,3} -/
+def squareGraph : Mat :=
+  ⟨4, 4, fun i => [(i + 1) % 4, (i + 3) % 4], fun i j => if j = (i + 1) % 4 ∨ j = (i + 3) % 4 then 1 else 0⟩
+
+example : squareGraph.isSymmetric = .ok true := by rfl
+example : (match isBipartite squareGraph with | .yes _ rows cols => rows == [0, 2] && cols == [1, 3] | _ => false) = true := by
+  rfl
+/-- the triangle: answered `False` -/
+example : (match isBipartite ⟨3, 3, fun i => [(i + 1) % 3, (i + 2) % 3], fun i j => if i = j then 0 else 1⟩ with
+    | .no => true | _ => false) = true := by rfl
 
 /-! ## break_cycles -/
 
